@@ -23,11 +23,13 @@ pub enum Mode {
     Directory,
     FileExplicitFormat,
     DirectoryFormat,
+    /// directory mode with `.destination(..)` set: documented as "only used if running on a single file"
+    DirectoryExplicit,
 }
 
 impl Mode {
     fn is_dir(self) -> bool {
-        matches!(self, Mode::Directory | Mode::DirectoryFormat)
+        matches!(self, Mode::Directory | Mode::DirectoryFormat | Mode::DirectoryExplicit)
     }
     fn is_format(self) -> bool {
         matches!(self, Mode::FileExplicitFormat | Mode::DirectoryFormat)
@@ -219,8 +221,8 @@ impl World {
     }
     fn dst(&self, f: usize) -> PathBuf {
         match (self.mode, f) {
-            (Mode::Directory | Mode::DirectoryFormat, 0) => self.dir.join("src/a.rs"),
-            (Mode::Directory | Mode::DirectoryFormat, _) => self.dir.join("src/sub/b.rs"),
+            (Mode::Directory | Mode::DirectoryFormat | Mode::DirectoryExplicit, 0) => self.dir.join("src/a.rs"),
+            (Mode::Directory | Mode::DirectoryFormat | Mode::DirectoryExplicit, _) => self.dir.join("src/sub/b.rs"),
             (Mode::FileDefault, _) => self.dir.join("src/g.rs"),
             _ => self.dir.join("out/generated.rs"),
         }
@@ -255,6 +257,7 @@ impl World {
             Mode::FileExplicit => Compile::file(self.src(0)).destination(self.dst(0)),
             Mode::FileExplicitFormat => Compile::file(self.src(0)).destination(self.dst(0)).format(),
             Mode::DirectoryFormat => Compile::directory(self.dir.join("src")).format(),
+            Mode::DirectoryExplicit => Compile::directory(self.dir.join("src")).destination(self.dir.join("out/generated.rs")),
         };
         let r = std::panic::catch_unwind(std::panic::AssertUnwindSafe(|| c.prefix(self.ps[s.prefix].to_string()).run()));
         match r {
@@ -294,6 +297,8 @@ pub fn explore(mode: Mode, tier: Tier, st: &mut Stats, replay: Option<&[Op]>) ->
         (Mode::Directory, Tier::Thorough) => vec![0, 1, 2, 3, 4, 5, 6, 7, 8],
         (Mode::FileExplicitFormat, Tier::Quick) => vec![1, 3, 5, 6, 7],
         (Mode::DirectoryFormat, Tier::Quick) => vec![1, 3, 7],
+        (Mode::DirectoryExplicit, Tier::Quick) => vec![1, 3, 5],
+        (Mode::DirectoryExplicit, Tier::Thorough) => vec![0, 1, 3, 4, 5, 7],
         (Mode::DirectoryFormat, Tier::Thorough) => vec![0, 1, 3, 4, 5, 7, 8],
         _ => vec![0, 1, 2, 3, 4, 5, 6, 7, 8],
     };
@@ -301,6 +306,7 @@ pub fn explore(mode: Mode, tier: Tier, st: &mut Stats, replay: Option<&[Op]>) ->
         (Mode::Directory, Tier::Quick) => vec![0, 1, 4],
         (Mode::FileExplicitFormat, _) => vec![0, 1, 4],
         (Mode::DirectoryFormat, Tier::Quick) => vec![0, 4],
+        (Mode::DirectoryExplicit, _) => vec![0, 1],
         (Mode::DirectoryFormat, Tier::Thorough) => vec![0, 1, 4],
         _ => vec![0, 1, 2, 3, 4],
     };
@@ -394,6 +400,9 @@ pub fn explore(mode: Mode, tier: Tier, st: &mut Stats, replay: Option<&[Op]>) ->
                     }
                     let mut fails: Vec<(String, String, String)> = Vec::new();
                     let mut fail = |kind: &str, expected: String, actual: String| fails.push((kind.to_string(), expected, actual));
+                    if mode == Mode::DirectoryExplicit && w.dir.join("out/generated.rs").exists() {
+                        fail("explicit-destination-written-in-directory-mode", "the destination setting is only used when running on a single file".into(), "out/generated.rs was created".into());
+                    }
                     if all_valid {
                         st.nontrivial += 1;
                         if let Err(e) = &res {
@@ -488,7 +497,7 @@ pub fn run(tier: Tier) {
     let mut states = 0;
     let mut transitions = 0;
     let mut samples = Vec::new();
-    for mode in [Mode::FileExplicit, Mode::FileDefault, Mode::Directory, Mode::FileExplicitFormat, Mode::DirectoryFormat] {
+    for mode in [Mode::FileExplicit, Mode::FileDefault, Mode::Directory, Mode::FileExplicitFormat, Mode::DirectoryFormat, Mode::DirectoryExplicit] {
         let (s, t, smp) = explore(mode, tier, &mut st, None);
         per_mode.insert(format!("{:?}", mode), json!({"states": s, "transitions": t}));
         states += s;
